@@ -240,3 +240,8 @@ Definition for_result_val (r : for_result) : val :=
   | FStuck l => VT [VS "stuck"; toval l]
   | FFuel => VS "fuel"
   end.
+Definition phisrc_name (s : phisrc) : string :=
+  match s with SrcInit => "init" | SrcInc => "inc" end%string.
+Definition for_cfg_val (g : for_cfg) : val :=
+  VT [VL (map (fun p => VT [VS (blk_name (fst p)); VS (phisrc_name (snd p))]) (fc_phi g));
+      VS (blk_name (fc_back g)); VS (blk_name (fc_continue g)); VS (blk_name (fc_break g))].
